@@ -500,12 +500,12 @@ func init() {
 			"sequence: every sequence of K (quick 2, thorough 3) stanzas from the package's reduced pool plus the generic pool, x namespace x callbacks x application state (IBB listener being accepted on / history query q1 being iterated / receipt r1 awaited / room being joined) on or off; every message/presence with K+1 children drawn from the payloads of all packages (text, body, error included) x every type x application state; pairs of the IBB pool also with a listener whose application earlier gave up Listener.Expect for (peer, s1). " +
 			"malformed: every pool stanza cut at every byte offset (EOF inside), with each of 14 constructs (comment, PI, directive, stream error, stream restart, stream features, closing stream tag, stray end tag, CDATA, undefined entity, unbound prefix, NUL, duplicate attribute, unquoted attribute) inserted at every tag boundary, and with every end tag replaced by a different one. " +
 			"size: every pattern x {10100-deep nesting (unknown / own element / with text), 5000 siblings, 400 kB text, 5000 attributes, 400 kB attribute value, 100 kB element name}. " +
-			"Oracle: no panic (recovered around Serve; library goroutines and runtime fatal errors through worker crash isolation), Serve returns (nil or any error) - judged without a clock: Serve runs in its own goroutine and is declared blocked forever when a stop-the-world snapshot shows every goroutine other than the observer parked on a channel/select/mutex/condition (no timers, no real I/O exist in the harness, so nothing can wake them) -, everything the session wrote parses as XML after the stream header. Non-trivial = distinct (configuration, input).",
+			"Oracle: no panic (recovered around Serve; library goroutines and runtime fatal errors through worker crash isolation), Serve returns (nil or any error) - judged without a clock: Serve runs in its own goroutine and is declared blocked forever when a stop-the-world snapshot shows every goroutine other than the observer parked on a channel/select/mutex/condition (no timers, no real I/O exist in the harness, so nothing can wake them) -, everything the session wrote parses as XML after the stream header. Non-trivial = distinct (configuration, input). " + helpersRule,
 		Assumptions: []string{
 			"'any byte string' is covered through this structured alphabet (token trees over each package's vocabulary), the byte-offset truncations and the listed malformed constructs only",
 			"application callbacks are trivial: they read the token stream they are handed to its end and return nil, a stanza error or a plain error; the application accepts IBB connections, iterates its history query without reading the message streams, and does nothing after a join or a receipt",
 			"a Serve that never returns is not judged by a clock but by a goroutine snapshot in which everything is parked (signature serve:blocked-forever@<library frame>); a Serve that spins, or waits on a goroutine that spins, would show as a hung worker (engine error) and be investigated by hand",
-			"request helpers that parse a reply (second half of the property) are not part of this check",
+			"request helpers (second half): the reply alphabet is the structured one of the rule (token trees over each helper's vocabulary plus ready-made typical subtrees, the listed ill-formed shapes); one fixed (canonical) schedule per reply, since the quantifier is the reply; the application consumes what a helper returns as documented (drains iterators, closes them once, closes raw responses), does not read the message streams of a history iterator, and cancels the context of outstanding calls when Serve has returned; later requests of the same call (next page, walk, next command stage) are answered by an empty result or one of two error replies; a non-reply <iq type='get'/> carrying a disco query is left out for the disco helpers (disco's handler answers through an un-instrumented xmlstream.Pipe and cannot run under the scheduler)",
 		},
 		Parts: func(tier string) []drv.Part {
 			n, m, k, scale := 3, 1, 2, 1
